@@ -84,6 +84,25 @@ impl<'a> ConfigExtractor<'a> {
         }
     }
 
+    /// Checks that the value of an address-like configuration key lies within the 64K address space
+    /// ($10000 is allowed for an empty segment that starts where the last one ends)
+    pub fn check_address(&self, key: &str, value: i64) -> CoreResult<i64> {
+        if !(0..=0x10000).contains(&value) {
+            let span = self
+                .try_get_kvp(key)
+                .map(|(k, v)| k.span.merge(v.span))
+                .unwrap_or(self.config_span);
+            return Err(Diagnostic::error()
+                .with_message(format!(
+                    "configuration key '{}' should be between $0000 and $10000, but is: {}",
+                    key, value
+                ))
+                .with_labels(vec![span.to_label()])
+                .into());
+        }
+        Ok(value)
+    }
+
     pub fn try_get_expression(&self, key: &str) -> Option<Located<Expression>> {
         let expr = self.try_get_located_token(key).map(|lt| {
             lt.map(|tok| match tok {
